@@ -97,6 +97,8 @@ class Rec:
         self.sig = inspect.signature(real_fn)
         self.calls = []
         self.fns = {}
+        from vp import state as _ST
+        _ST.RECORDERS.add(self)
 
     def __call__(self, *a, **kw):
         ba = self.sig.bind(*a, **kw)
